@@ -24,7 +24,14 @@ pub fn check(w: &J) -> Result<(), String> {
             return Ok(());
         }
     }
-    let r = catch_unwind(AssertUnwindSafe(|| check_inner(&prop, w)));
+    let mut r = catch_unwind(AssertUnwindSafe(|| check_inner(&prop, w)));
+    // builder-side properties quantify over what the user configured through the API: the same configuration is also
+    // run through the owned variants of the API (reason_owned, add_item_owned, native_data_owned, builder_owned)
+    if matches!(&r, Ok(Ok(()))) && matches!(prop.as_str(), "C03" | "C04" | "C05" | "C06" | "C07" | "C16" | "C17") && w.str("kind") == "cfg" {
+        crate::ROUTE.store(1, std::sync::atomic::Ordering::SeqCst);
+        r = catch_unwind(AssertUnwindSafe(|| check_inner(&prop, w).map_err(|e| format!("[owned variants of the API] {}", e))));
+        crate::ROUTE.store(0, std::sync::atomic::Ordering::SeqCst);
+    }
     match r {
         Ok(r) => r,
         Err(p) => {
